@@ -53,7 +53,7 @@ HAS_BLANK = {"soft", "blank"}  # classes for which reading with underscore_unmun
 RT_ONLY_CLASSES = {"blank"}
 RT_ACTS = {"Make", "NewickRT", "NewickNamesRT", "NewickDefaultRT", "DndRT", "JsonRT", "RichDictRT"}
 # the twin classes run on the name-writing calls and on the calls that create or look up internal nodes by name
-TWIN_ACTS = RT_ACTS | {"RootAtMidpoint", "RootedAt", "Unrooted", "SubTree"}
+TWIN_ACTS = RT_ACTS | {"RootAtMidpoint", "RootedAt", "RootedWithTip"}
 # round trips that carry internal node names: every name must come back on the same node
 NAME_KEEPING = {"NewickNamesRT", "JsonRT", "RichDictRT", "Copy", "DeepCopy", "CopyModule"}
 
